@@ -2,7 +2,7 @@
 
 fold(defaults, sources) with sources = [[(key, kind, value[, item]), ...], ...] in precedence order.
 kind: 'plain' replaces (also whole lists and dicts); 'append' appends to the list built so far (a scalar
-appends one element, a list extends); 'dictitem' sets one item in the dict built so far."""
+appends one element, a list extends; a scalar value so far counts as a one-element list); 'dictitem' sets one item in the dict built so far."""
 
 import copy
 
@@ -15,7 +15,9 @@ def fold(defaults, sources):
             if kind == "plain":
                 state[key] = copy.deepcopy(val)
             elif kind == "append":
-                cur = list(state[key]) if isinstance(state.get(key), list) else []
+                cur = state.get(key)
+                # a scalar written through the scalar member of Union[T, List[T]] is the one-element list built so far
+                cur = list(cur) if isinstance(cur, list) else ([] if cur is None or isinstance(cur, dict) else [cur])
                 state[key] = cur + (list(val) if isinstance(val, list) else [val])
             elif kind == "dictitem":
                 cur = dict(state[key]) if isinstance(state.get(key), dict) else {}
